@@ -192,6 +192,76 @@ fn bump_arg_case(bump: u8) -> Result<(), String> {
     oracles::c01_vault_invariant(&cur, &w).map(|_| ())
 }
 
+/// Aliased accounts: the caller names the pool's OWN vault where its token account belongs (as the source of a swap's input or of a
+/// deposit, as the destination of an output, a withdrawal or collected fees — one token or both). Each such instruction is run on
+/// a copy of a funded, fee-laden pool through the v1 and the v2 handler. It may be refused (the token program does, when the vault
+/// is the SOURCE and the caller is not its owner) or go through as a transfer of the vault to itself; either way the vaults must
+/// still cover every claim afterwards, and a swap that paid the caller something must have brought its input into the vault.
+fn aliased_accounts_case() -> Result<(u64, u64), String> {
+    use crate::ops::{Lim, Part};
+    use crate::world::{self, Wallet};
+    let (l, w) = world::build_std(&stdworlds::chain_spec("c01-alias", [Enc::Fixed, Enc::Dynamic, Enc::Dynamic], 3000, 300));
+    let mut base = l;
+    for op in [
+        Op::Inc { pos: 0, liq: stdworlds::BIG, v2: false },
+        Op::Swap { a_to_b: true, exact_in: true, amount: 2_000_000, lim: Lim::None, v2: false },
+        Op::Swap { a_to_b: false, exact_in: true, amount: 3_000_000, lim: Lim::None, v2: true },
+    ] {
+        let st = ops::apply(&base, &w, &op);
+        if !st.outcome.ok() {
+            return Err(format!("machinery: set-up op {op:?} failed: {}", st.outcome.short()));
+        }
+        base = st.ledger;
+    }
+    oracles::c01_vault_invariant(&base, &w)?;
+    let alias = |wal: &Wallet, a: bool, b: bool| Wallet { owner: wal.owner, acct_a: if a { w.pool.vault_a } else { wal.acct_a }, acct_b: if b { w.pool.vault_b } else { wal.acct_b } };
+    let (mut refused, mut accepted) = (0u64, 0u64);
+    let mut judge = |what: String, ix: solana_program::instruction::Instruction, payer: &Wallet, swap_in_is_a: Option<bool>| -> Result<(), String> {
+        let mut post = base.clone();
+        let out = svm::process(&mut post, &ix);
+        if !out.ok() {
+            refused += 1;
+            return Ok(());
+        }
+        accepted += 1;
+        oracles::c01_vault_invariant(&post, &w).map_err(|e| format!("{what} was accepted and afterwards {e}"))?;
+        if let Some(in_a) = swap_in_is_a {
+            let (vin, real_out) = if in_a { (w.pool.vault_a, payer.acct_b) } else { (w.pool.vault_b, payer.acct_a) };
+            let gained = balance(&post, &real_out).saturating_sub(balance(&base, &real_out));
+            let arrived = balance(&post, &vin).saturating_sub(balance(&base, &vin));
+            if gained > 0 && arrived == 0 {
+                return Err(format!("{what} was accepted: the caller received {gained} of the output token although nothing arrived in the input vault"));
+            }
+        }
+        Ok(())
+    };
+    let st = w.pool.state(&base);
+    for (ea, eb) in [(true, false), (false, true), (true, true)] {
+        for v2 in [false, true] {
+            for a_to_b in [true, false] {
+                for exact_in in [true, false] {
+                    let args = world::SwapArgs {
+                        amount: 1_000_000,
+                        other_amount_threshold: if exact_in { 0 } else { u64::MAX },
+                        sqrt_price_limit: 0,
+                        amount_specified_is_input: exact_in,
+                        a_to_b,
+                    };
+                    let tas = world::swap_tick_arrays(&w.pool, st.tick_current_index, a_to_b);
+                    let ix = world::ix_swap(&w.pool, &alias(&w.trader, ea, eb), args, tas, v2, &[]);
+                    judge(format!("swap{} (a_to_b={a_to_b}, exact_in={exact_in}) naming the pool's vault as the trader's token account (A: {ea}, B: {eb})", if v2 { "_v2" } else { "" }), ix, &w.trader, Some(a_to_b))?;
+                }
+            }
+            let pos = w.positions[0].at(&base);
+            let lp = alias(&w.lp, ea, eb);
+            judge(format!("increase_liquidity{} naming the pool's vault as the owner's token account (A: {ea}, B: {eb})", if v2 { "_v2" } else { "" }), world::ix_increase(&pos, &lp, 1_000_000, u64::MAX, u64::MAX, v2), &w.lp, None)?;
+            judge(format!("decrease_liquidity{} paying into the pool's own vault (A: {ea}, B: {eb})", if v2 { "_v2" } else { "" }), world::ix_decrease(&pos, &lp, Part::Half.amount(pos.state(&base).liquidity), 0, 0, v2), &w.lp, None)?;
+            judge(format!("collect_fees{} paying into the pool's own vault (A: {ea}, B: {eb})", if v2 { "_v2" } else { "" }), world::ix_collect_fees(&pos, &lp, v2), &w.lp, None)?;
+        }
+    }
+    Ok((refused, accepted))
+}
+
 /// An adaptive-fee pool (its address is derived from a fee-tier index that differs from its tick spacing) pays out like any other
 /// pool: deposits, trades, withdrawals through both decrease instructions and the reposition instruction, fee collection.
 fn adaptive_pool_case() -> Result<u64, String> {
@@ -249,6 +319,16 @@ pub fn run(ctx: &Ctx) -> Report {
         Ok(n) => r.guard("adaptive_fee_pool_operations_paid_out", n),
         Err(e) => {
             r.violation("adaptive_pool".into(), e, json!({"kind": "adaptive_pool"}));
+            return r;
+        }
+    }
+    match aliased_accounts_case() {
+        Ok((refused, accepted)) => {
+            r.guard("instructions_naming_the_pools_vault_refused", refused);
+            r.guard("instructions_naming_the_pools_vault_accepted_and_judged", accepted);
+        }
+        Err(e) => {
+            r.violation("aliased_accounts".into(), e, json!({"kind": "aliased_accounts"}));
             return r;
         }
     }
@@ -330,6 +410,9 @@ pub fn run(ctx: &Ctx) -> Report {
 pub fn replay(case: &Value) -> Result<(), String> {
     if case["kind"].as_str() == Some("adaptive_pool") {
         return adaptive_pool_case().map(|_| ());
+    }
+    if case["kind"].as_str() == Some("aliased_accounts") {
+        return aliased_accounts_case().map(|_| ());
     }
     if case["kind"].as_str() == Some("bump_arg") {
         return bump_arg_case(case["bump"].as_u64().ok_or("bump")? as u8);
